@@ -208,9 +208,14 @@ impl<'tcx> Cx<'tcx> {
                         .s("of", &self.ty(pty.ty))
                         .end()
                 }
-                ProjectionElem::Index(l) => Obj::new().s("k", "index").n("l", l.index()).end(),
+                ProjectionElem::Index(l) => Obj::new()
+                    .s("k", "index")
+                    .n("l", l.index())
+                    .s("ty", &self.ty(pty.projection_ty(tcx, elem).ty))
+                    .end(),
                 ProjectionElem::ConstantIndex { offset, min_length, from_end } => Obj::new()
                     .s("k", "cindex")
+                    .s("ty", &self.ty(pty.projection_ty(tcx, elem).ty))
                     .n("offset", offset as usize)
                     .n("min_length", min_length as usize)
                     .b("from_end", from_end)
